@@ -368,6 +368,32 @@ def env_program(rng):
     return {"kind": "env", "code": code}
 
 
+def depth_programs(quick):
+    """The stack-depth dimension: every opcode of the table (and PUSH / DUP / SWAP / POP, the memory, storage and
+    state-reading opcodes) on a stack pre-filled with distinct items to depth d in {pops-1, pops, pops+1, 1022, 1023,
+    1024}: below `pops` it must halt (underflow), above 1024 - pushes + pops it must halt (overflow), in between the result
+    and the cost are those of the shallow stack and the filler is untouched.  Variant A lets the opcode consume the filler
+    items themselves (a wrong operand pick shows), variant B pushes boundary operands on top of the filler."""
+    table = [(op, None, 1) for op in UNARY] + [(op, None, 2) for op in BINARY] + [(op, None, 3) for op in TERNARY]
+    table += [("PUSH", "7", 0), ("POP", None, 1), ("DUP", "1", 1), ("DUP", "16", 16), ("SWAP", "1", 2), ("SWAP", "16", 17),
+              ("MSTORE", None, 2), ("MSTORE8", None, 2), ("MLOAD", None, 1), ("SSTORE", None, 2), ("SLOAD", None, 1),
+              ("SELFBALANCE", None, 0), ("ADDRESS", None, 0), ("CALLVALUE", None, 0), ("BALANCE", None, 1), ("EXTCODESIZE", None, 1)]
+    progs = []
+    for op, arg, pops in table:
+        ins = [op] if arg is None else [op, arg]
+        depths = sorted({pops - 1, pops, pops + 1, 1022, 1023, 1024} - {-1})
+        for d in depths:
+            progs.append({"kind": "depth", "fill": d, "code": [ins]})                      # variant A
+        if op in COMP:                                                                      # variant B
+            args = {1: [T256 - 1], 2: [T255, 3], 3: [T256 - 1, T256 - 2, 5]}[pops]
+            for d in ((pops + 1, 1023, 1024) if quick else (pops + 1, 1022, 1023, 1024)):
+                progs.append({"kind": "depth", "fill": d - pops, "code": [push(a) for a in reversed(args)] + [ins]})
+    # a result computed on a full stack is used again, and the stack is popped down
+    progs.append({"kind": "depth", "fill": 1024, "code": [["ADD"], ["DUP", "1"], ["MUL"], ["POP"], ["POP"], ["SWAP", "16"], ["SUB"]]})
+    progs.append({"kind": "depth", "fill": 1023, "code": [push(T256 - 1), ["ADDMOD"], push(9), push(8), ["EXP"], ["DUP", "3"]]})
+    return progs
+
+
 def sto_program(rng):
     """SSTORE / SLOAD sequences over slots with and without a committed value: every branch of net gas metering
     (no-op, fresh set, reset of an original value, dirty slot, clearing and restoring)."""
@@ -404,12 +430,14 @@ def generate(ctx):
     nmem, nsto, nenv = (300, 250, 300) if ctx.quick else (1200, 2000, 3000)
     progs += [mem_program(rng) for _ in range(nmem)] + [sto_program(rng) for _ in range(nsto)]
     progs += [env_program(rng) for _ in range(nenv)]
+    dp = depth_programs(ctx.quick)
+    progs += dp
     pp = pool_programs(ctx, rng)
     progs += pp
     for i, p in enumerate(progs):
         p["id"] = i
     ctx.note("programs: %d witnesses, %d grid singles, %d random singles, %d random programs, %d memory-growth, %d storage, "
-             "%d environment, %d from the pool model" % (nw, ng, ns, nprog, nmem, nsto, nenv, len(pp)))
+             "%d environment, %d stack-depth, %d from the pool model" % (nw, ng, ns, nprog, nmem, nsto, nenv, len(dp), len(pp)))
     return progs
 
 
@@ -517,7 +545,8 @@ def run(ctx):
                        "tuple) pairs of computational opcodes among the generated single operations plus the number of random "
                        "multi-instruction programs")
     ctx.assumptions += ["jump table = the Istanbul table selected by params.Versions[YouCurrentVersion].EVMVersion",
-                        "programs are straight-line (no jumps), stack depth <= 12, memory offsets <= 20 KB, gas limit 10^7",
+                        "programs are straight-line (no jumps; a pre-filled stack comes from a loop prefix the trace omits), memory offsets <= 20 KB, "
+                        "gas limit 10^7; stack validity is the Yellow Paper's rule (delta <= d and d - delta + alpha <= 1024)",
                         "gas is judged for the computational opcodes, for MLOAD/MSTORE/MSTORE8 (3 + memory expansion, the allocated "
                         "words tracked per program) and for SLOAD/SSTORE (Istanbul: 800 / EIP-2200 net metering against the storage "
                         "committed before the transaction); refunds are not judged",
@@ -530,14 +559,14 @@ def run(ctx):
     for p in (progs[0], progs[len(progs) // 2], progs[-1]):
         ctx.sample(p)
     distinct = {json.dumps(p["code"]) for p in progs if p["kind"] != "prog"}
-    ctx.cov["distinct_nontrivial"] = len(distinct) + sum(1 for p in progs if p["kind"] in ("prog", "pool", "mem", "sto", "env"))
+    ctx.cov["distinct_nontrivial"] = len(distinct) + sum(1 for p in progs if p["kind"] in ("prog", "pool", "mem", "sto", "env", "depth"))
     trace = judge(ctx, progs)
     if not ctx.quick:
         selftest(ctx, trace)
         pool_variant(ctx, [p for p in progs if p["kind"] in ("prog", "pool")][:4000])
     fired = ctx.cov.get("clauses_fired", {})
     never = sorted(c for c in ("Result", "RestUnchanged", "Cost", "StackOp", "MemReadBack", "StorageReadBack", "Executes",
-                               "FinalMemory", "FinalStorage", "EnvOpsReadOnly") if not fired.get(c))
+                               "FinalMemory", "FinalStorage", "EnvOpsReadOnly", "StackValidity") if not fired.get(c))
     if never:
         raise vlib.Undecided("vacuous clauses (never evaluated): %s" % never)
 
